@@ -111,6 +111,27 @@ func checkC11(c *c11Case) (fl *failure, harnessErr string) {
 				return failf("Equal(x,x)=false for %s", repr.Describe(x))
 			}
 		}
+		// two slices over one backing array: the same storage is not the same JSON value. A prefix
+		// of a non-empty slice is a different (shorter) array, alone and inside a container.
+		for _, x := range []any{ra, rb, rc} {
+			v := reflect.ValueOf(x)
+			for v.IsValid() && (v.Kind() == reflect.Pointer || v.Kind() == reflect.Interface) && !v.IsNil() {
+				v = v.Elem()
+			}
+			if !v.IsValid() || v.Kind() != reflect.Slice || v.Len() == 0 {
+				continue
+			}
+			full, prefix := v.Interface(), v.Slice(0, v.Len()-1).Interface()
+			if eq(full, prefix) || eq(prefix, full) {
+				return failf("Equal reports a slice and its proper prefix (same backing array, lengths %d and %d) as equal: %s", v.Len(), v.Len()-1, repr.Describe(full))
+			}
+			if eq([]any{full}, []any{prefix}) || eq(map[string]any{"k": prefix}, map[string]any{"k": full}) {
+				return failf("Equal reports containers holding a slice and its proper prefix (same backing array) as equal: %s", repr.Describe(full))
+			}
+			if !eq(full, v.Slice(0, v.Len()).Interface()) {
+				return failf("Equal(x, x[:len(x)]) is false for %s", repr.Describe(full))
+			}
+		}
 		// the laws, stated on the library's own answers
 		if eq(ra, rb) && eq(rb, rc) && !eq(ra, rc) {
 			return failf("Equal is not transitive")
